@@ -364,7 +364,10 @@ func (c *Ctx) Script(dialect string) string {
 	defer c.mu.Unlock()
 	var b strings.Builder
 	for _, d := range c.decls {
-		if dialect == "cvc5" && d.Alt != "" {
+		if dialect == "cover" && d.Alt != "" {
+			// definitions of fresh array constants are conservative: a cover query may drop them
+			b.WriteString(strings.SplitN(d.Alt, "\n", 2)[0])
+		} else if dialect != "z3" && d.Alt != "" {
 			b.WriteString(d.Alt)
 		} else {
 			b.WriteString(d.Text)
@@ -405,6 +408,7 @@ func (o *Obligation) script(dialect string, wantModel bool) string {
 	var b strings.Builder
 	if dialect == "cvc5" {
 		b.WriteString("(set-option :produce-models true)\n(set-logic ALL)\n")
+	} else if dialect == "cover" {
 	} else {
 		b.WriteString("(set-option :smt.mbqi true)\n")
 	}
@@ -500,95 +504,107 @@ var (
 	optDumpDir   = ""
 )
 
-// Solve discharges one obligation: z3-new first with a short limit, then the
-// other back ends in parallel with the full limit.
+// Solve discharges one obligation.
+//
+// Array definitions are emitted as quantified definitions (all three back ends
+// agree on them); an obligation is discharged iff some back end answers
+// "unsat".  z3 5.1.0 was observed to answer "sat" with an invalid model on
+// valid VCs written with array lambdas, so the lambda form is used only to
+// look for a counterexample model after all back ends failed to discharge the
+// obligation, and such a model is only ever a hint for the replay.
 func Solve(o *Obligation) *Result {
 	res := &Result{Ob: o}
-	zs := o.script("z3", true)
-	res.Script = zs
+	qs := o.script("q", true)
+	cs := o.script("cvc5", true)
+	if o.Cover {
+		qs = o.script("cover", false)
+		cs = "(set-logic ALL)\n" + qs
+	}
+	res.Script = qs
 	if optDumpDir != "" {
 		os.MkdirAll(optDumpDir, 0o755)
-		os.WriteFile(optDumpDir+"/"+sanitize(o.Name)+".smt2", []byte(zs), 0o644)
+		os.WriteFile(optDumpDir+"/"+sanitize(o.Name)+".smt2", []byte(qs), 0o644)
 	}
 	want := "unsat"
 	if o.Cover {
 		want = "sat"
 	}
-	quick := optTimeoutMs / 4
+	quick := optTimeoutMs / 5
 	if quick < 1500 {
 		quick = 1500
 	}
-	st, out, secs := runSolver(solvers[0], zs, quick, optSeed)
+	st, out, secs := runSolver(solvers[0], qs, quick, optSeed)
 	res.Status, res.Solver, res.Time, res.Output = st, solvers[0].name, secs, out
-	total := secs
 	if st == want && !(optTwoBackends && !o.Cover) {
 		res.finish()
 		return res
 	}
-	if st == "sat" || st == "unsat" {
-		if !optTwoBackends || o.Cover {
-			res.finish()
-			return res
-		}
-	}
-	// race the remaining back ends (and z3-new again with the full limit)
 	type r struct {
 		st, out, name string
 		secs          float64
 	}
 	ch := make(chan r, 4)
-	cs := o.script("cvc5", true)
 	run := func(sp solverSpec, script string) {
 		st, out, secs := runSolver(sp, script, optTimeoutMs, optSeed)
 		ch <- r{st, out, sp.name, secs}
 	}
 	n := 0
-	if st != "sat" && st != "unsat" {
-		go run(solvers[0], zs)
+	if st != want {
+		go run(solvers[0], qs)
 		n++
 	}
-	go run(solvers[1], zs)
+	go run(solvers[1], qs)
 	go run(solvers[2], cs)
 	n += 2
-	var confirmations []string
-	if st == "unsat" {
-		confirmations = append(confirmations, solvers[0].name)
+	var agree []string
+	if st == want {
+		agree = append(agree, solvers[0].name)
 	}
-	var best *r
+	var other *r
 	for i := 0; i < n; i++ {
 		x := <-ch
-		total += 0
-		if x.st == "unsat" {
-			confirmations = append(confirmations, x.name)
-		}
-		if x.st == "sat" || x.st == "unsat" {
-			if best == nil || (best.st != want && x.st == want) {
-				xx := x
-				best = &xx
+		if x.st == want {
+			if len(agree) == 0 {
+				res.Status, res.Solver, res.Time, res.Output = x.st, x.name, x.secs, x.out
 			}
-			if !optTwoBackends {
+			agree = append(agree, x.name)
+			if !optTwoBackends || o.Cover || len(agree) >= 2 {
 				break
 			}
-			if len(confirmations) >= 2 {
-				break
-			}
-		} else if best == nil && res.Status == "error" && x.st != "error" {
+		} else if (x.st == "sat" || x.st == "unsat") && other == nil {
+			xx := x
+			other = &xx
+		} else if res.Status == "error" && x.st != "error" && len(agree) == 0 {
 			res.Status, res.Solver, res.Time, res.Output = x.st, x.name, x.secs, x.out
 		}
 	}
-	if best != nil && !(res.Status == "unsat" && best.st != "unsat") {
-		if res.Status == "sat" && best.st == "unsat" {
-			// disagreement between back ends: report as unknown, keep both
-			res.Output += "\n--- DISAGREEMENT: " + best.name + " says unsat\n" + best.out
-			res.Status = "unknown"
-		} else {
-			res.Status, res.Solver, res.Time, res.Output = best.st, best.name, best.secs, best.out
+	if len(agree) > 0 {
+		res.Solver = strings.Join(agree, "+")
+		if other != nil {
+			res.Output += "\n--- note: " + other.name + " answered " + other.st + " on the same query\n"
+		}
+		res.finish()
+		return res
+	}
+	if other != nil {
+		res.Status, res.Solver, res.Time, res.Output = other.st, other.name, other.secs, other.out
+	}
+	if !o.Cover && res.Status != "sat" {
+		// look for a counterexample model with the exact (lambda) array definitions
+		ls := o.script("z3", true)
+		for _, sp := range []solverSpec{solvers[1], solvers[0]} {
+			st, out, secs := runSolver(sp, ls, optTimeoutMs/2, optSeed)
+			if st == "sat" {
+				res.Status, res.Solver, res.Time, res.Output = "sat", sp.name+"(lambda form)", secs, out
+				break
+			}
+			if st == "unsat" {
+				// the exact form is valid: discharged after all
+				res.Status, res.Solver, res.Time, res.Output = "unsat", sp.name+"(lambda form)", secs, out
+				break
+			}
 		}
 	}
-	if optTwoBackends && len(confirmations) > 0 {
-		res.Solver = strings.Join(confirmations, "+")
-	}
-	_ = total
 	res.finish()
 	return res
 }
